@@ -84,6 +84,9 @@ def rename_keys(rng, spec, leaves, conts, pool, p_rename=0.6):
 
 def make_store(rng, nested=True, attrdict=False, keys=None, values="int"):
     """returns (spec, leaves, containers).  spec: [[label, node]...]"""
+    # item names of the AttrDict container: some shadow dict methods ("items" is left out: an AttrDict holding that key
+    # cannot be copied or pickled by Python itself, which puts it outside what C12 quantifies over)
+    GNAMES = rng.sample(["q", "r", "keys", "values", "get", "pop", "update", "copy", "clear", "setdefault"], 2)
     if keys:
         spec, leaves, conts = make_store(rng, nested, attrdict, None, values)
         return rename_keys(rng, spec, leaves, conts, KEY_POOLS[keys])
@@ -108,10 +111,11 @@ def make_store(rng, nested=True, attrdict=False, keys=None, values="int"):
     # how the top-level container is handed to the manager: Manager.ref, Manager.refattr (attribute access becomes item
     # access) or Manager.newenv (DepEnv proxy); only dict containers can take the last two
     spec = [["c", {"kind": "dict", "items": c_items, "root": rng.choice(["ref", "ref", "refattr", "env"])}],
-            ["g", {"kind": "attrdict" if attrdict else "obj", "items": leafs("qr")}],
+            # an AttrDict may hold items named like dict methods (read through the attribute route)
+            ["g", {"kind": "attrdict", "items": leafs(GNAMES)} if attrdict else {"kind": "obj", "items": leafs("qr")}],
             ["f", {"kind": "dict", "items": [["sum", "FunSum"], ["sum2", "FunSum2"]], "root": rng.choice(["ref", "ref", "refattr"])}
                   if rng.random() < 0.6 else {"kind": "obj", "items": [["sum", "FunSum"], ["sum2", "FunSum2"]]}]]
-    leaves += [["g", ["a", "q"]], ["g", ["a", "r"]]]
+    leaves += [["g", ["a", k]] for k in (GNAMES if attrdict else "qr")]
     return spec, leaves, conts
 
 
@@ -122,6 +126,9 @@ def gen_expr(rng, pool, conts, depth=0):
     """pool: locations the expression may read; conts: containers it may sum
     (already filtered by the caller)"""
     k = rng.random()
+    if EXPR_MODE[0] == "mixed" and rng.random() < 0.08:
+        # ** with a literal base (how a negative / signed-zero literal base prints matters to mk_fun) and a stored exponent
+        return ["bin", "**", ["const", rng.choice(POW_BASES)], ["ref", rng.choice(pool)]]
     if conts and k < 0.12 and depth == 0:
         return ["callsum", ["f", [FSTEP[0], "sum"]], rng.choice(conts)]
     if k < 0.35 or depth >= 2:
@@ -132,11 +139,32 @@ def gen_expr(rng, pool, conts, depth=0):
         return ["bin", rng.choice(["%", "//"]), gen_expr(rng, pool, conts, depth + 1), ["const", rng.choice([-3, -2, 2, 3, 5])]]
     if k < 0.6:
         a = ["ref", rng.choice(pool)]
-        b = ["const", rng.randint(-5, 5)]
+        b = ["const", rng.choice(NUMERIC_POOL) if TYPED_LITERALS[0] and rng.random() < 0.3 else rng.randint(-5, 5)]
         if rng.random() < 0.3:
             a, b = b, a
         return ["bin", rng.choice("+-*"), a, b]
     return ["bin", rng.choice("+-*"), gen_expr(rng, pool, conts, depth + 1), gen_expr(rng, pool, conts, depth + 1)]
+
+
+TYPED_LITERALS = [False]
+EXPR_MODE = ["int"]      # set by gen_history: "mixed" histories also use typed literals and ** inside expressions
+POW_BASES = ["\x02f:-0.0", "\x02f:-2.25", "\x02f:0.5", "\x02f:3.0", "\x02f:0.0", "\x02f:-1.0"]      # float bases: any exponent is cheap
+
+
+def retype_consts(e):
+    """the same expression with every literal replaced by one of ANOTHER TYPE that prints the same (3 / Decimal('3'),
+    0.5 / Decimal('0.5')): two different definitions with one printed form"""
+    if e[0] == "const":
+        c = e[1]
+        if isinstance(c, int) and not isinstance(c, bool):
+            return ["const", "\x02dec:%d" % c]
+        if isinstance(c, str) and c.startswith("\x02f:") and c[3:] not in ("nan", "inf", "-inf", "-0.0", "1e+308"):
+            return ["const", "\x02dec:" + c[3:]]
+        if isinstance(c, str) and c.startswith("\x02dec:"):
+            return ["const", "\x02f:" + c[5:]]
+        return e
+    return [retype_consts(x) if isinstance(x, list) and x and isinstance(x[0], str) and x[0] in ("const", "bin", "proj", "callsum", "callsum2")
+            else x for x in e]
 
 
 def sum2_expr(rng, t, pool, conts2):
@@ -152,14 +180,18 @@ FAULT_KINDS = ["Fault"] * 6 + ["StopIteration", "StopIteration", "KeyError", "Va
                                 "ZeroDivisionError", "RecursionError", "BaseFault", "GeneratorExit", "StopAsyncIteration"]
 
 
-ROUTES = ["sv", "sv", "item", "item", "env", "envattr"]      # set_value(ref, v) | owner[key] = v / owner.key = v | DepEnv proxy
+ROUTES = ["sv", "sv", "item", "item", "env", "envattr", "toexpr"]      # set_value(ref, v) | owner[key] = v / owner.key = v | DepEnv proxy
 
 
-def gen_history(rng, profile="mixed", nops=None, nofun=False, attrdict=False, keys="auto", values="int"):
+def gen_history(rng, profile="mixed", nops=None, nofun=False, attrdict="auto", keys="auto", values="int", literals=False):
     """keys: None | "strings" | "exotic" | "auto" (one history in four uses the "strings" pool); values: "int" | "mixed"."""
     if keys == "auto":
         keys = "strings" if rng.random() < 0.25 else None
+    if attrdict == "auto":
+        attrdict = rng.random() < 0.3            # the library's default container (AttrDict or a subclass) for "g"
     nested = profile not in ("flat", "assign_flat") and not (profile == "windows" and rng.random() < 0.5)
+    EXPR_MODE[0] = values
+    TYPED_LITERALS[0] = literals and values == "mixed"      # literals whose printed form does not carry their type (Decimal ...)
     spec, leaves, conts = make_store(rng, nested, attrdict, keys, values)
     FSTEP[0] = "a" if [n for l, n in spec if l == "f"][0]["kind"] == "obj" else "i"
     # containers whose first two members are leaves: f.sum2(container) reads only those two, so the container may hold the
@@ -304,6 +336,16 @@ def gen_history(rng, profile="mixed", nops=None, nofun=False, attrdict=False, ke
     for op in ops:
         if op[0] == "set" and len(op) == 3:
             op.append(rng.choice(ROUTES))          # the route is part of the case (replayable); the model ignores it
+    if TYPED_LITERALS[0]:
+        # a definition replaced by another one that PRINTS the same but holds literals of another type
+        ops2 = []
+        for op in ops:
+            ops2.append(op)
+            if op[0] == "set" and op[2][0] == "expr" and rng.random() < 0.15:
+                e2 = retype_consts(op[2][1])
+                if e2 != op[2][1]:
+                    ops2.append(["set", op[1], ["expr", e2], rng.choice(["toexpr", "toexpr", "sv", "item"])])
+        ops = ops2
     if keys != "exotic" and rng.random() < 0.2:
         # key FORMS: the same location addressed through a plain str / int key in one operation and through an instance of
         # a str / int subclass without a repr of its own in another (equal, same hash, same printed form: the same location)
@@ -507,6 +549,9 @@ HEADER = ("From Coq Require Import List ZArith NArith.\n"
           "Import ListNotations.\n")
 
 
+HUGE = 10 ** 200
+
+
 def model_compare(ctx, cases, observations, tag, per_file=20):
     """evaluates the model on every case; returns list of (case index, op index)"""
     texts, ids_per = [], []
@@ -516,6 +561,15 @@ def model_compare(ctx, cases, observations, tag, per_file=20):
         for i in chunk:
             if not is_int_case(cases[i]) or any(op[0] == "arm_read" for op in cases[i]["ops"]):
                 continue                  # values / fault kinds outside the model's domain: judged by the oracles only
+            # a cyclic data flow squares its values at every assignment: the model follows (Z is unbounded) but numerals of
+            # thousands of digits are no use in a case file - the history is compared up to the operation before
+            huge = next((k for k, o in enumerate(observations[i])
+                         if any(isinstance(v, int) and abs(v) > HUGE for _, v in o.get("store") or [])), None)
+            if huge is not None:
+                e = emit_case(dict(cases[i], ops=cases[i]["ops"][:huge]), observations[i][:huge]) if huge else None
+                if e is not None:
+                    items.append(e); ids.append(i)
+                continue
             e = emit_case(cases[i], observations[i])
             if e is None:
                 skipped.append(i)
